@@ -4,6 +4,7 @@ package shellparse
 
 import (
 	"encoding/json"
+	"fmt"
 	"testing"
 )
 
@@ -46,33 +47,40 @@ func TestVerifC17ShellSplit(t *testing.T) {
 		if err := json.Unmarshal(line, &c); err != nil {
 			t.Fatal(err)
 		}
-		in := vStr(c.Inp)
-		got, err := Parse(in)
-		okDoc, okPx := vAgree(got, err, c.Doc), vAgree(got, err, c.Px)
 		silent := c.Doc.Err != c.Px.Err || !vEq(vStrs(c.Doc.Words), vStrs(c.Px.Words))
 		if silent {
 			r.count("silent")
-			if okDoc {
-				r.count("silent_as_documented")
-			} else if okPx {
-				r.count("silent_as_posix")
-			}
 		}
 		if c.Doc.Err {
 			r.count("malformed")
 		} else if len(c.Doc.Words) > 0 {
 			r.count("nontrivial")
 		}
-		if !okDoc && !okPx {
-			kind := "split-words"
-			if c.Doc.Err && c.Px.Err {
-				kind = "malformed-accepted"
-			} else if err != nil && !c.Doc.Err && !c.Px.Err {
-				kind = "wellformed-rejected"
+		reported := false
+		vInstances(c.Inp, vMultiLetters, func() {
+			in := vStr(c.Inp)
+			got, err := Parse(in)
+			r.count("real_calls")
+			okDoc, okPx := vAgree(got, err, c.Doc), vAgree(got, err, c.Px)
+			if silent {
+				if okDoc {
+					r.count("silent_as_documented")
+				} else if okPx {
+					r.count("silent_as_posix")
+				}
 			}
-			r.mismatch(kind, map[string]any{"input": in, "inp": c.Inp, "got": got, "goterr": vErrStr(err),
-				"want_doc": vStrs(c.Doc.Words), "want_doc_err": c.Doc.Err, "want_posix": vStrs(c.Px.Words), "want_posix_err": c.Px.Err})
-		}
+			if !okDoc && !okPx && !reported {
+				reported = true
+				kind := "split-words"
+				if c.Doc.Err && c.Px.Err {
+					kind = "malformed-accepted"
+				} else if err != nil && !c.Doc.Err && !c.Px.Err {
+					kind = "wellformed-rejected"
+				}
+				r.mismatch(kind, map[string]any{"input": in, "inp": c.Inp, "got": got, "got_quoted": fmt.Sprintf("%q", got), "goterr": vErrStr(err),
+					"want_doc": vStrs(c.Doc.Words), "want_doc_err": c.Doc.Err, "want_posix": vStrs(c.Px.Words), "want_posix_err": c.Px.Err})
+			}
+		})
 	})
 }
 
@@ -83,17 +91,23 @@ func TestVerifC17ShellRoundTrip(t *testing.T) {
 		if err := json.Unmarshal(line, &c); err != nil {
 			t.Fatal(err)
 		}
-		want := vStrs(c.Args)
-		for _, q := range []struct {
-			name string
-			toks []int
-		}{{"dq", c.Qd}, {"sq", c.Qs}} {
-			in := vStr(q.toks)
-			got, err := Parse(in)
-			if err != nil || !vEq(got, want) {
-				r.mismatch("roundtrip-"+q.name, map[string]any{"input": in, "args": want, "got": got, "goterr": vErrStr(err), "argtoks": c.Args})
+		reported := false
+		vInstances(c.Qd, vMultiQuoted, func() {
+			want := vStrs(c.Args)
+			for _, q := range []struct {
+				name string
+				toks []int
+			}{{"dq", c.Qd}, {"sq", c.Qs}} {
+				in := vStr(q.toks)
+				got, err := Parse(in)
+				r.count("real_calls")
+				if (err != nil || !vEq(got, want)) && !reported {
+					reported = true
+					r.mismatch("roundtrip-"+q.name, map[string]any{"input": in, "args": want, "got": got, "goterr": vErrStr(err), "argtoks": c.Args})
+				}
 			}
-		}
+		})
+		want := c.Args
 		if len(want) > 0 {
 			r.count("nontrivial")
 		}
